@@ -143,6 +143,9 @@ def _splice(unit, g, name, site, prefix):
             if pn not in modified and isinstance(a0, list) and len(a0) > 2 and a0[0] == "var" and a0[2] in ("local", "param"):
                 subst[pn] = copy.deepcopy(a0)
                 continue
+            if pn not in modified and isinstance(a0, list) and a0 and all(q[0] in ("int", "bin", "un", "cast", "paren") for q in _walk(a0) if isinstance(q, list) and q and isinstance(q[0], str)):
+                subst[pn] = copy.deepcopy(a0)      # a constant argument (`EV_WRITE`) is the constant
+                continue
             binds.append({"e": ["decl", prefix + pn, pt, copy.deepcopy(a)], "loc": loc, "n": nmax})
             nmax += 1
         # a helper local that is initialised once, never modified, from the very expression a never-modified caller local is initialised from, is that local (`bufev = &priv->bev` again)
